@@ -235,7 +235,7 @@ def obligations(tier):
         for axis in axes:
             storages = ["file_array", "dict"] if (thorough or tid in ("T3", "T10")) else ["file_array"]
             for st in storages:
-                sz = 3 if (thorough or t.axes == 1) else 2
+                sz = 3 if ((thorough and t.axes < 3) or t.axes == 1) else 2
                 spre = tmpl.size_pre(t, sz)
                 if t.axes == 3 and not thorough:
                     spre = ["n0 == 2 and n1 == 2 and n2 == 2"]
@@ -261,10 +261,12 @@ def obligations(tier):
                       f"H.reject({tid!r}, 'unknown', idx, {MAP_ARGS})", timeout=120, bounds=f"{tid}: unknown axis name"))  # fmt: skip
         obs.append(Ob(f"reject_range_{tid}", [("idx", "int")] + MAP_PARAMS, ["-5 <= idx <= 5"] + tmpl.size_pre(T[tid], hi),
                       f"H.reject({tid!r}, 'range', idx, {MAP_ARGS})", timeout=200, bounds=f"{tid}: index outside [-size, size)"))  # fmt: skip
-    ltids = ["T1", "T3", "T4", "T8", "T9", "T13", "T14"] + (["T5", "T6", "T7", "T10", "T12", "T16", "T18"] if thorough else [])
+    # learners share one in-memory store and have no "end of run" at which a memory backend would be persisted, so
+    # "stores the data a full run stores" is observable through the run folder for file_array only (see DESIGN 11.5)
+    ltids = ["T1", "T3", "T4", "T7", "T8", "T9", "T12", "T13", "T14"] + (["T5", "T6", "T10", "T16", "T18", "T22"] if thorough else [])
     for tid in ltids:
         t = T[tid]
-        for st in ("file_array",) + (("dict",) if thorough else ()):
+        for st in ("file_array",):
             obs.append(
                 Ob(
                     f"learners_{tid}_{st}",
